@@ -948,6 +948,43 @@ func ruleFreshDst(c *Ctx, rule string, names ...string) {
 		}
 		return false
 	}
+	// copyUnlessSame: v := src's letters; if dst != src { v = a fresh copy }: what is handed on is fresh
+	// whenever destination and source differ.
+	copyUnlessSame := func(cf *freshFn, body *ast.BlockStmt, arg ast.Expr, before token.Pos) bool {
+		id, ok := unparen(arg).(*ast.Ident)
+		if !ok || p.TypesInfo.Uses[id] == nil {
+			return false
+		}
+		found := false
+		ast.Inspect(body, func(y ast.Node) bool {
+			ifs, ok := y.(*ast.IfStmt)
+			if !ok || ifs.Else != nil || ifs.End() > before {
+				return true
+			}
+			be, ok := unparen(ifs.Cond).(*ast.BinaryExpr)
+			if !ok || be.Op != token.NEQ {
+				return true
+			}
+			_, w1 := cf.classify(be.X)
+			_, w2 := cf.classify(be.Y)
+			if !strings.HasPrefix(w1, "parameter") || !strings.HasPrefix(w2, "parameter") {
+				return true
+			}
+			for _, st := range ifs.Body.List {
+				as, ok := st.(*ast.AssignStmt)
+				if !ok || as.Tok != token.ASSIGN || len(as.Lhs) != 1 || len(as.Rhs) != 1 {
+					continue
+				}
+				if l, ok := as.Lhs[0].(*ast.Ident); ok && p.TypesInfo.Uses[l] == p.TypesInfo.Uses[id] {
+					if rk, _ := cf.classify(as.Rhs[0]); rk == fFresh {
+						found = true
+					}
+				}
+			}
+			return true
+		})
+		return found
+	}
 	for _, fd := range targets {
 		name := fd.Name.Name
 		f := newFreshFn(p, fd)
@@ -992,6 +1029,9 @@ func ruleFreshDst(c *Ctx, rule string, names ...string) {
 				}
 			}
 			k, w := f.classify(in.val)
+			if k == fAlias && copyUnlessSame(f, fd.Body, in.val, call.Pos()) {
+				k, w = fFresh, ""
+			}
 			// in a private helper the installed value may be one of the helper's own parameters: what the
 			// callers hand in decides
 			if k == fAlias && strings.HasPrefix(w, "parameter ") && !isRoot(fd) {
@@ -1019,6 +1059,9 @@ func ruleFreshDst(c *Ctx, rule string, names ...string) {
 						}
 						sites++
 						ck, cw := cf.classify(cc.Args[pidx])
+						if ck == fAlias && copyUnlessSame(cf, caller.Body, cc.Args[pidx], cc.Pos()) {
+							ck = fFresh
+						}
 						if ck != fFresh {
 							allFresh = false
 							if ck == fAlias {
